@@ -86,6 +86,10 @@ def special_pairs():
         ({'rows': [('ann', 31), ('bob', 46)]}, {'rows': [('zed', 20), ('ann', 31), ('bob', 47)]}),
         ({7: [100], 'k': list(range(9))}, {7: [100, 101], 'k': list(range(12))}),
         ([1, 2, 3], [0, 1, 2, '3']),
+        # tuples edited below keys / indexes that are == and of different types, one pair after the other in one process (finding F58: element
+        # paths went through a cache that identifies 1.0, 1 and True)
+        ({1.0: (1, 2)}, {1.0: (1, 3)}), ([0, (1, 2)], [0, (1, 3)]), ({True: (5, 6)}, {True: (5, 7)}), ({1: (1, 2), 'k': [0, (4, 5)]}, {1: (9, 2), 'k': [0, (4, 6)]}),
+        ({0.0: [(1, 2)], False: 1}, {0.0: [(1, 3)], False: 1}), ([(1, 2), 0], [(1, 3), 0]),
     ]
     try:
         import numpy as np
